@@ -120,13 +120,13 @@ theorem listed_readable {bw : BWorld} {c : Nat} {b : Backend} {h1 h2 b0 : Bytes}
 /-- A put of a new key that fits the block header succeeds for every buffer size; afterwards the session
 invariant holds again and the collection holds exactly one more pair (already flushed or still queued). -/
 theorem cput_ok {bw : BWorld} {c : Nat} {b : Backend} {h1 h2 b0 : Bytes} {recs : List KV}
-    (hi : BInv bw c b h1 h2 b0 recs) (k v : Bytes) (hnew : k ∉ b.keys) (hk : k.length < 256)
+    (hi : BInv bw c b h1 h2 b0 recs) (k v : Bytes) (klen : Nat) (hnew : k ∉ b.keys) (hk : k.length < 256)
     (hv : v.length < 4294967296) :
-    ∃ bw' b' recs', bstep bw (.put c k v) = (bw', .ok) ∧ BInv bw' c b' h1 h2 b0 recs' ∧
+    ∃ bw' b' recs', bstep bw (.put c k v klen) = (bw', .ok) ∧ BInv bw' c b' h1 h2 b0 recs' ∧
       recs' ++ b'.queue = recs ++ b.queue ++ [⟨k, v⟩] ∧ b'.keys = b.keys ++ [k] := by
   have hc : b.keys.contains k = false := by simpa using hnew
   let b1 : Backend := { b with queue := b.queue ++ [⟨k, v⟩], keys := b.keys ++ [k],
-                               usedmem := b.usedmem + k.length + v.length }
+                               usedmem := b.usedmem + klen + v.length }
   have hi1 : BInv (setB bw c (some b1)) c b1 h1 h2 b0 recs := by
     refine ⟨by simp [getB, setB], hi.rw_, hi.sess, ?_, ?_, ?_⟩
     · simp [b1, hi.keys, List.append_assoc]
@@ -143,7 +143,7 @@ theorem cput_ok {bw : BWorld} {c : Nat} {b : Backend} {h1 h2 b0 : Bytes} {recs :
       intro he; subst he
       apply hnew
       rw [hi.keys, ← List.map_append]; exact ha
-  have hstep : bstep bw (.put c k v) =
+  have hstep : bstep bw (.put c k v klen) =
       if (b1.usedmem : Int) > b1.bufsize then flush (setB bw c (some b1)) c b1
       else (setB bw c (some b1), .ok) := by
     simp only [bstep, hi.here]
@@ -157,9 +157,9 @@ theorem cput_ok {bw : BWorld} {c : Nat} {b : Backend} {h1 h2 b0 : Bytes} {recs :
 
 /-- "an operation that fails (duplicate key, oversize key, write on read-only …) leaves … every handle's
 view unchanged", at the collection level: such a put changes nothing at all. -/
-theorem cput_fail_frame (bw : BWorld) (c : Nat) (b : Backend) (hb : getB bw c = some b) (k v : Bytes)
+theorem cput_fail_frame (bw : BWorld) (c : Nat) (b : Backend) (hb : getB bw c = some b) (k v : Bytes) (klen : Nat)
     (h : b.readonly = true ∨ k ∈ b.keys ∨ ¬ k.length < 256) :
-    ∃ e, bstep bw (.put c k v) = (bw, .err e) := by
+    ∃ e, bstep bw (.put c k v klen) = (bw, .err e) := by
   simp only [bstep, hb]
   by_cases hr : b.readonly = true
   · exact ⟨.readonly, by rw [if_pos hr]⟩
@@ -177,8 +177,8 @@ readable before anything reached the file, a duplicate and an oversize key are r
 session a reading session sees the record -/
 
 def exRun : List BOut :=
-  let ops : List BOp := [.cnew 0 1000000 false false [], .begin 0 true, .put 0 [97] [49], .keys 0, .get 0 [97],
-                         .put 0 [97] [50], .put 0 (List.replicate 256 76) [1], .end_ 0, .begin 0 false, .get 0 [97], .end_ 0]
+  let ops : List BOp := [.cnew 0 1000000 false false [], .begin 0 true, .put 0 [97] [49] 1, .keys 0, .get 0 [97],
+                         .put 0 [97] [50] 1, .put 0 (List.replicate 256 76) [1] 256, .end_ 0, .begin 0 false, .get 0 [97], .end_ 0]
   (ops.foldl (fun (acc : BWorld × List BOut) o => let r := bstep acc.1 o; (r.1, acc.2 ++ [r.2])) (initB, [])).2
 
 example : exRun = [.ok, .ok, .ok, .keys [[97]], .val [49], .err .keyExists, .err .tooLong, .ok, .ok, .val [49], .ok] := by
